@@ -205,14 +205,13 @@ func c13GenTree(t *rapid.T) []c13File {
 		files = append(files, c13File{Path: p, Kind: kind, Size: len(b), data: b})
 	}
 	big := rapid.IntRange(0, 2).Draw(t, "bigTree") == 0 // >= 12 files so that one skip stays under the 10% ceiling
+	// Sizes are kept moderate: every file costs ~6 directory levels in three trees.
+	// Small trees: 1-3 databases x 1-2 measurements x 1-2 hours x 1-2 files;
+	// big trees: 1-2 databases x 1-2 measurements x 3-5 hours.
 	nDB := rapid.IntRange(1, 3).Draw(t, "nDB")
-	maxMeas, maxFiles := 3, 3
-	if big {
-		// keep big trees wide in hours rather than in every dimension (cost per case)
-		if nDB > 2 {
-			nDB = 2
-		}
-		maxMeas, maxFiles = 2, 2
+	maxMeas, maxFiles := 2, 2
+	if big && nDB > 2 {
+		nDB = 2
 	}
 	for d := 0; d < nDB; d++ {
 		db := rapid.SampledFrom(c13DBs).Draw(t, "db")
@@ -221,11 +220,11 @@ func c13GenTree(t *rapid.T) []c13File {
 			meas := rapid.SampledFrom(c13Meas).Draw(t, "meas")
 			nH := rapid.IntRange(1, 2).Draw(t, "nHours")
 			if big {
-				nH = rapid.IntRange(3, 6).Draw(t, "nHoursBig")
+				nH = rapid.IntRange(3, 5).Draw(t, "nHoursBig")
 			}
 			for h := 0; h < nH; h++ {
 				dir := fmt.Sprintf("%s/%s/2025/%02d/%02d/%02d", db, meas,
-					rapid.IntRange(1, 12).Draw(t, "mon"), rapid.IntRange(1, 28).Draw(t, "day"), rapid.IntRange(0, 23).Draw(t, "hour"))
+					rapid.SampledFrom([]int{1, 12}).Draw(t, "mon"), rapid.SampledFrom([]int{1, 28}).Draw(t, "day"), rapid.IntRange(0, 23).Draw(t, "hour"))
 				nF := rapid.IntRange(1, maxFiles).Draw(t, "nFiles")
 				for f := 0; f < nF; f++ {
 					add(fmt.Sprintf("%s/%s_%d_%d.parquet", dir, meas, 1735689600+h*3600, f), "data", "file")
@@ -239,7 +238,7 @@ func c13GenTree(t *rapid.T) []c13File {
 				add(fmt.Sprintf("%s/%s/2025/01/02/%s_daily_compacted.parquet", db, meas, meas), "data", "file")
 			}
 			// Iceberg table written by the exporter: {ns}_{db}.db/{measurement}/metadata/* + data/*
-			if rapid.IntRange(0, 2).Draw(t, "iceberg") == 0 {
+			if rapid.IntRange(0, 3).Draw(t, "iceberg") == 0 {
 				tbl := fmt.Sprintf("%s_%s.db/%s", rapid.SampledFrom([]string{"arc", "lake"}).Draw(t, "ns"), db, meas)
 				add(tbl+"/metadata/00000-5f2c.metadata.json", "iceberg-meta", "ice")
 				add(tbl+"/metadata/v1.metadata.json", "iceberg-meta", "ice")
